@@ -2,18 +2,21 @@
 # seeded.sh [dir ...]: apply each stored seeded change to /repo, run the quick check(s) of its
 # property, record whether a VIOLATION (not a KNOWN-FINDING) was raised, and undo the change.
 # Results: /verif/seeded/<name>/result.json.  /repo must be clean; nothing is committed there.
+# With WT=<scratch worktree of /repo HEAD> the change is applied there instead and the checks run with
+# VERIF_REPO=$WT (tools/seeded_par.sh uses this to run several at a time).
 cd /verif
-[ -z "$(git -C /repo status --porcelain)" ] || { echo "/repo is not clean"; exit 2; }
+R=${WT:-/repo}
+[ -z "$(git -C $R status --porcelain)" ] || { echo "$R is not clean"; exit 2; }
 dirs=${@:-$(ls -d seeded/*/)}
 for d in $dirs; do
   d=${d%/}; name=$(basename $d); prop=${name%%-*}
   also=$(python3 -c "import json,sys; print(' '.join(json.load(open('$d/meta.json')).get('also_check',[])))" 2>/dev/null)
-  git -C /repo apply $d/patch.diff || { echo "$name: patch does not apply"; continue; }
+  git -C $R apply $d/patch.diff || { echo "$name: patch does not apply"; continue; }
   : > $d/result.log
   detected=false; exits=""
   for p in $prop $also; do
     t0=$(date +%s)
-    VERIF_NO_EVIDENCE=1 ./vcheck $p --tier quick > $d/.out.$p 2>&1; rc=$?
+    ${WT:+env VERIF_REPO=$WT} env VERIF_NO_EVIDENCE=1 ./vcheck $p --tier quick > $d/.out.$p 2>&1; rc=$?
     t1=$(date +%s)
     echo "== $p exit=$rc wall=$((t1-t0))s" >> $d/result.log
     grep -A2 "^VIOLATION" $d/.out.$p | cut -c1-400 >> $d/result.log
@@ -21,7 +24,7 @@ for d in $dirs; do
     [ $rc -eq 1 ] && grep -q "^VIOLATION property=$p" $d/.out.$p && detected=true
     rm -f $d/.out.$p
   done
-  git -C /repo checkout -- . 
+  git -C $R checkout -- . && git -C $R clean -fdq
   python3 - "$d" "$detected" "$exits" <<'PY'
 import json,sys,re
 d,det,exits=sys.argv[1:4]
@@ -31,4 +34,4 @@ json.dump({"detected":det=="true","checks":exits.split(),"new_signatures":sigs[:
 print(d, "DETECTED" if det=="true" else "MISSED", exits, len(sigs),"signatures")
 PY
 done
-[ -z "$(git -C /repo status --porcelain)" ] || echo "WARNING: /repo not clean after run"
+[ -z "$(git -C $R status --porcelain)" ] || echo "WARNING: $R not clean after run"
